@@ -14,7 +14,6 @@ def sizeFB := AITB.Gen.C20.sizeFirstBound
 def allFB := AITB.Gen.C20.allIdsFirstBound
 def tailG := AITB.Gen.C20.eraseTailGuard
 
-def sortN (l : List Nat) : List Nat := l.mergeSort (fun a b => a ≤ b)
 
 def pf : P PF := do
   let k ← P.nats; let v ← P.nats
@@ -24,8 +23,6 @@ def nodupB : List Nat → Bool
   | [] => true
   | x :: xs => !(xs.contains x) && nodupB xs
 
-/-- the property's clause for an id-list answer: as a set it is the specification's answer, no id twice -/
-def sameIds (impl spec : List Nat) : Bool := sortN impl == sortN spec
 
 structure St where
   t : T
